@@ -61,7 +61,8 @@ type SchedPlan struct {
 	First    int              `json:"first"`
 	Quantum  int              `json:"quantum,omitempty"`
 	Points   []verifsim.Point `json:"points,omitempty"`
-	Expect   string           `json:"expect,omitempty"` // violation key this replay is expected to reproduce
+	Expect   string           `json:"expect,omitempty"`     // violation key this replay is expected to reproduce
+	Procs    int              `json:"gomaxprocs,omitempty"` // GOMAXPROCS of the worker process (0: 1)
 	// RefOut: outcome classes of every op as measured by the (purely sequential)
 	// generating process; the executing process compares its own runs with them
 	RefOut [][]string `json:"ref_out,omitempty"`
